@@ -27,14 +27,33 @@ _REAL_RLOCK = _threading.RLock
 LOCK_YIELD = [None]      # set by the active run: callable() or None
 
 
+HELD = {}   # thread ident -> number of library locks currently held
+
+
+def holds_library_lock():
+    return HELD.get(_threading.get_ident(), 0) > 0
+
+
+class Deadlock(BaseException):
+    """A blocking acquire of a library lock that can never succeed in this
+    run: the simulator owns every thread, so it knows (no wall clock)."""
+
+
+def single_thread_yield(owner_ident=None):
+    raise Deadlock('the only thread of the run waits for a library lock '
+                   'that is still held (it was never released)')
+
+
 class SimLock:
-    def __init__(self, real):
+    def __init__(self, real, reentrant=False):
         self._real = real
         self._owner = None
+        self._reentrant = reentrant
 
     def acquire(self, blocking=True, timeout=-1):
         if self._real.acquire(False):
-            self._owner = _threading.get_ident()
+            me = self._owner = _threading.get_ident()
+            HELD[me] = HELD.get(me, 0) + 1
             return True
         if not blocking:
             return False
@@ -44,16 +63,28 @@ class SimLock:
             if y is None:
                 ok = self._real.acquire(True, timeout)
                 if ok:
-                    self._owner = _threading.get_ident()
+                    me = self._owner = _threading.get_ident()
+                    HELD[me] = HELD.get(me, 0) + 1
                 return ok
+            if self._owner == _threading.get_ident() and \
+                    not self._reentrant:
+                raise Deadlock('a thread waits for a non-reentrant library '
+                               'lock it holds itself')
             y(self._owner)     # hand the baton to the owner
             spins += 1
-            if spins > 100000:
-                raise RuntimeError('library lock never became free')
-        self._owner = _threading.get_ident()
+            if spins > 20000:
+                raise Deadlock('library lock never became free although '
+                               'every other thread was given the baton')
+        me = self._owner = _threading.get_ident()
+        HELD[me] = HELD.get(me, 0) + 1
         return True
 
     def release(self):
+        me = _threading.get_ident()
+        if HELD.get(me, 0) > 0:
+            HELD[me] -= 1
+        if not self._reentrant:
+            self._owner = None
         self._real.release()
 
     def locked(self):
@@ -79,7 +110,7 @@ def _lock_factory(*a, **k):
 
 def _rlock_factory(*a, **k):
     real = _REAL_RLOCK(*a, **k)
-    return SimLock(real) if _from_library() else real
+    return SimLock(real, True) if _from_library() else real
 
 
 _threading.Lock = _lock_factory
